@@ -375,6 +375,33 @@ func deliveries(tr *vutil.Trace, sc *scenario, from int, crashAt int) {
 			os.Exit(77)
 		}
 	}
+	// lock-free readers, as the rpc layer and the sync helper are in production: they query
+	// blocks by height while blocks are being added and removed
+	stopReaders := make(chan struct{})
+	var readers sync.WaitGroup
+	if crashAt == 0 {
+		for g := 0; g < 2; g++ {
+			readers.Add(1)
+			go func() {
+				defer readers.Done()
+				for {
+					select {
+					case <-stopReaders:
+						return
+					default:
+					}
+					for h := 0; h <= maxH+1; h++ {
+						chain.GetBlockHash(uint64(h))
+						chain.QueryBlock(uint64(h))
+					}
+				}
+			}()
+		}
+	}
+	defer func() {
+		close(stopReaders)
+		readers.Wait()
+	}()
 	for i := from; i < len(sc.Order); i++ {
 		op := sc.Order[i]
 		cur, curIdx, curK, curA = op.B, i, op.K, op.A
